@@ -138,67 +138,72 @@ fn num_unary_predicate(
     Ok(predicate(&x).into())
 }
 
-pub fn plus(vm: &mut Vm) -> Result<VCell, Error> {
-    let argc = pop_argc(vm, 0, None, "+")?;
-    let mut sum = Number::from(0);
+/// Arithmetic on two numbers: exact for exact operands, float-contagious otherwise.
+fn exact_or_inexact(lhs: &Number, op: char, rhs: &Number) -> Number {
+    match lhs.exact_arithmetic(op, rhs) {
+        Some(result) => result,
+        None => match op {
+            '+' => lhs + rhs,
+            '-' => lhs - rhs,
+            '*' => lhs * rhs,
+            _ => lhs / rhs,
+        },
+    }
+}
+
+/// Pop `argc` numeric operands, first operand first.
+fn pop_operands(vm: &mut Vm, argc: usize, proc: &str) -> Result<Vec<Number>, Error> {
+    let mut operands = vec![];
     for _ in 0..argc {
-        sum += match vm.heap.get(vm.stack.pop()?) {
-            VCell::Number(n) => n,
+        match vm.heap.get(vm.stack.pop()?) {
+            VCell::Number(n) => operands.push(n),
             vcell => {
                 return Err(InvalidArgs(
-                    "+".to_string(),
+                    proc.to_string(),
                     "number".to_string(),
                     vm.heap.get_as_cell(&vcell).to_string(),
                 ));
             }
         }
     }
-    Ok(sum.into())
+    operands.reverse();
+    Ok(operands)
+}
+
+/// Fold an operator over the operands: exactly if all of them are exact, with the
+/// float-contagious operators otherwise.
+fn fold_operands(op: char, operands: &[Number]) -> Number {
+    if let Some(result) = Number::exact_fold(op, operands) {
+        return result;
+    }
+    let mut result = operands[0].clone();
+    for it in &operands[1..] {
+        result = exact_or_inexact(&result, op, it);
+    }
+    result
+}
+
+pub fn plus(vm: &mut Vm) -> Result<VCell, Error> {
+    let argc = pop_argc(vm, 0, None, "+")?;
+    let mut operands = pop_operands(vm, argc, "+")?;
+    operands.insert(0, Number::from(0));
+    Ok(fold_operands('+', &operands).into())
 }
 
 pub fn minus(vm: &mut Vm) -> Result<VCell, Error> {
     let argc = pop_argc(vm, 1, None, "-")?;
-    let mut result = Number::from(0);
-    for _ in 0..(argc - 1) {
-        result += match vm.heap.get(vm.stack.pop()?) {
-            VCell::Number(n) => n,
-            vcell => {
-                return Err(InvalidArgs(
-                    "-".to_string(),
-                    "number".to_string(),
-                    vm.heap.get_as_cell(&vcell).to_string(),
-                ));
-            }
-        }
-    }
-
-    if let VCell::Number(n) = vm.heap.get(vm.stack.pop()?) {
-        result = n - result;
-    }
-
+    let mut operands = pop_operands(vm, argc, "-")?;
     if argc == 1 {
-        result *= Number::from(-1);
+        operands.insert(0, Number::from(0));
     }
-
-    Ok(VCell::Number(result))
+    Ok(VCell::Number(fold_operands('-', &operands)))
 }
 
 pub fn multiply(vm: &mut Vm) -> Result<VCell, Error> {
     let argc = pop_argc(vm, 0, None, "*")?;
-    let mut result = Number::from(1);
-    for _ in 0..argc {
-        result *= match vm.heap.get(vm.stack.pop()?) {
-            VCell::Number(n) => n,
-            vcell => {
-                return Err(InvalidArgs(
-                    "*".to_string(),
-                    "number".to_string(),
-                    vm.heap.get_as_cell(&vcell).to_string(),
-                ));
-            }
-        }
-    }
-    Ok(VCell::Number(result))
+    let mut operands = pop_operands(vm, argc, "*")?;
+    operands.insert(0, Number::from(1));
+    Ok(VCell::Number(fold_operands('*', &operands)))
 }
 
 pub fn divide(vm: &mut Vm) -> Result<VCell, Error> {
@@ -210,11 +215,11 @@ pub fn divide(vm: &mut Vm) -> Result<VCell, Error> {
     }
 
     if argc == 1 {
-        let result = Number::from(1) / y;
+        let result = exact_or_inexact(&Number::from(1), '/', &y);
         Ok(result.into())
     } else {
         let x = pop_number(vm)?;
-        let result = x / y;
+        let result = exact_or_inexact(&x, '/', &y);
         Ok(result.into())
     }
 }
